@@ -400,7 +400,9 @@ def checkRetry (cfg : Cfg) (st : St) (b : Batch) (failed : List FailedP) : St ×
   if st.stopping then (st, [], true)
   else if st.attempts ≥ cfg.maxAttempts then
     let (out, obs) := deliverMany st.outstanding (failed.map (fun f => (b.sidsOf f.tp, .err f.kind)))
-    ({ st with outstanding := out }, obs, true)
+    -- acks = 0: no acknowledgement will ever arrive; what did not fail was handed to a connection
+    let (out2, obs2) := if cfg.acks = producerAckNotRequired then deliver out b.allSids .okNone else (out, [])
+    ({ st with outstanding := out2 }, obs ++ obs2, true)
   else
     let topics := resetTopics failed
     ({ st with nextTid := st.nextTid + 1, interval := st.interval * producerRetryFactor,
